@@ -188,6 +188,87 @@ def run_solve(case):
     return tr
 
 
+def run_solve_history(case):
+    """C05 over call histories of one Model object: build the base model, solve it under every configuration (the encoder adds
+    auxiliary variables to the model as a side effect), THEN declare further variables / constraints on the same object and
+    solve again.  The trace describes the extended model; the events are the solves after the extension."""
+    base = {"vars": case["vars"][: case["nbase"]], "cons": [c for c in case["cons"][: case["cbase"]]], "solves": case["solves"]}
+    try:
+        m, xs, sem = build(base)
+    except Unsupported:
+        return {"unsupported": True}
+    names0 = [x.name for x in xs]
+    for cfg in case["solves"][:4]:
+        _solve_event(m, names0, cfg)
+    # extension on the same Model object
+    try:
+        for name, lb, ub in case["vars"][case["nbase"]:]:
+            xs.append(m.int_var(lb, ub, name) if name is not None else m.int_var(lb, ub))
+        full = {"vars": case["vars"], "cons": case["cons"], "solves": case["solves"]}
+        _, _, semfull = build(full)                       # semantic records of the complete model (fresh object, not solved)
+        # add the remaining constraints to the live object through the public operators
+        tmp = {"vars": case["vars"], "cons": case["cons"][case["cbase"]:], "solves": []}
+        from solvor.cp import Model as _M  # noqa: F401
+        live_cons = _constraints_on(m, xs, tmp["cons"])
+        for t in live_cons:
+            m.add(t)
+    except Unsupported:
+        return {"unsupported": True}
+    names = [x.name for x in xs]
+    tr = _base(case, semfull, "solve")
+    tr["events"] = [_solve_event(m, names, cfg) for cfg in case["solves"]]
+    tr["history"] = True
+    return tr
+
+
+def _constraints_on(m, xs, cons):
+    out = []
+    for c in cons:
+        k = c[0]
+        try:
+            if k == "cmp":
+                lhs, rhs = _build_expr(c[2], xs), _build_expr(c[3], xs)
+                t = (lhs == rhs) if c[1] == "eq" else (lhs != rhs)
+                if not isinstance(t, tuple):
+                    raise Unsupported("comparison did not build a constraint")
+            elif k == "all_different":
+                t = m.all_different([xs[i] for i in c[1]])
+            elif k in ("sum_eq", "sum_le", "sum_ge"):
+                t = getattr(m, k)([xs[i] for i in c[1]], c[2])
+            elif k == "circuit":
+                t = m.circuit([xs[i] for i in c[1]])
+            elif k == "no_overlap":
+                t = m.no_overlap([xs[i] for i in c[1]], c[2])
+            elif k == "cumulative":
+                t = m.cumulative([xs[i] for i in c[1]], c[2], c[3], c[4])
+            else:
+                raise ValueError(k)
+        except TypeError as ex:
+            raise Unsupported(str(ex)) from ex
+        out.append(t)
+    return out
+
+
+def gen_history_case(rng):
+    """base model with 2-3 variables and 1-2 constraints, extended by one variable and one constraint that uses it"""
+    c = gen_case(rng)
+    nv = len(c["vars"])
+    if nv < 3:
+        c["vars"].append(["x%d" % nv, rng.randint(0, 1), rng.randint(2, 3)])
+        nv += 1
+    nbase = nv - 1
+    base_cons = []
+    doms = [[lb, ub] for _, lb, ub in c["vars"]]
+    for _ in range(rng.randint(1, 2)):
+        base_cons.append(gen_con(rng, nbase, doms[:nbase]))
+    ext = [gen_con(rng, nv, doms)]
+    if rng.random() < 0.6:
+        ext.append(["sum_le", [rng.randrange(nbase), nv - 1], rng.randint(1, 5)])
+    c["cons"] = base_cons + ext
+    c["nbase"], c["cbase"] = nbase, len(base_cons)
+    return c
+
+
 # ------------------------------------------------------------------ generator side
 def _v(i):
     return ["v", i]
